@@ -2,6 +2,7 @@ mod bitslice;
 mod common;
 mod fam_d;
 mod fam_e;
+mod fam_l;
 mod fam_p;
 mod fam_s;
 mod fam_t;
